@@ -5,7 +5,8 @@
    the current pddl_writer.py / anml_writer.py (Gen/Gen_Keywords.v); the side conditions on those tables are checked
    by computation each time this file is recompiled.  Every theorem quantifies over ALL finite histories of name
    requests, all item names (Coq strings; ASCII is the claimed scope), and for PDDL over every keyword set [kws]
-   the writer can hold (any subset of the declared tables), either value of has_hierarchical_typing and every set
+   the writer can hold (any subset of the declared tables), either value of the "rename a type called object" flag
+   (has_hierarchical_typing() or more than one user type) and every set
    [pnames] of names the problem reports through has_name.
    Both writers keep one flat namespace (one dictionary) for all kinds of items, so "share a namespace" is: are
    different dictionary keys.  Items are (class, identity, name) triples; equal triples = equal Python keys. *)
